@@ -278,3 +278,32 @@ theorem fixHydrogens_charge : ∀ (ns : List Nat) (m m' : Mol), fixHydrogens ns 
     · exact ih _ _ h
 
 end ChythonModel.Proofs.C05
+
+namespace ChythonModel.Proofs.C05
+open ChythonModel.Model ChythonModel.Model.C05 ChythonModel.Gen.Aromatic
+open ChythonModel.Model.Valence (setH setHEntry calcImplicitMol)
+
+theorem setH_ids (m : Mol) (n : Nat) (h : Option Nat) : (setH m n h).ids = m.ids := by
+  unfold Mol.ids setH
+  simp only [List.map_map]
+  apply List.map_congr_left
+  intro p _
+  simp only [Function.comp, setHEntry]
+  split <;> rfl
+
+theorem fixHydrogens_ids : ∀ (ns : List Nat) (m m' : Mol), fixHydrogens ns m = some m' → m'.ids = m.ids := by
+  intro ns
+  induction ns with
+  | nil => intro m m' h; simp only [fixHydrogens, Option.some.injEq] at h; rw [h]
+  | cons n ns ih =>
+    intro m m' h
+    simp only [fixHydrogens] at h
+    split at h
+    · cases hc : calcImplicitMol m n with
+      | none => simp [hc] at h
+      | some hh =>
+        simp only [hc] at h
+        rw [ih _ _ h, setH_ids]
+    · exact ih _ _ h
+
+end ChythonModel.Proofs.C05
